@@ -22,6 +22,13 @@ def hz_roundtrip(i, sp, cents):
     m = Note().from_hertz(hz, sp)
     return [int(m), n.to_hertz(sp), Note(i + 12).to_hertz(sp) if i + 12 <= 139 else None, Note("A", 4).to_hertz(sp)]
 
+def _try(f):
+    try:
+        return f()
+    except Exception as e:
+        from tools.framework import err_of
+        return err_of(e)
+
 def copy_indep(name, octv):
     a = Note(name, octv, velocity=90, channel=5)
     b = Note(a)
@@ -52,6 +59,7 @@ IMPL = {
     "note.reset_int": lambda nm, o, i: (lambda n: [int(n), n.octave])(Note(nm, o).from_int(i)),
     "note.reset_note": lambda nm, o, nm2, o2: (lambda n: (n.set_note(nm2, o2), [n.name, n.octave, int(n)])[1])(Note(nm, o)),
     "note.reset_sh": lambda nm, o, nm2, o2: (lambda n: [n.name, n.octave])(Note(nm, o).from_shorthand(Note(nm2, o2).to_shorthand())),
+    "note.refused_set": lambda which, v: (lambda n: ((_try(lambda: getattr(n, "set_" + which)(v))), [n.velocity, n.channel, _try(lambda: note_list(Note(n)))])[1])(Note("C", 4, velocity=70, channel=3)),
     "note.hz": hz_roundtrip,
     # frequencies of NAMED notes (pitch numbers below 0 and above 127 included): [Hz, Hz an octave up, Hz of the enharmonic]
     "note.hz_named": lambda nm, o, nm2, o2, sp: [Note(nm, o).to_hertz(sp), Note(nm, o + 1).to_hertz(sp), Note(nm2, o2).to_hertz(sp)],
@@ -59,7 +67,7 @@ IMPL = {
     "note.roundtrips": roundtrips,
     "note.helmholtz": lambda nm, o: (lambda n: [n.name, n.octave])(Note().from_shorthand(Note(nm, o).to_shorthand())),
 }
-NO_MODEL = {"note.hz_named", "note.reset_int", "note.reset_note", "note.reset_sh", "note.hz", "note.copy_indep", "note.roundtrips", "note.helmholtz"}
+NO_MODEL = {"note.refused_set", "note.hz_named", "note.reset_int", "note.reset_note", "note.reset_sh", "note.hz", "note.copy_indep", "note.roundtrips", "note.helmholtz"}
 
 def has_model(c):
     return c["fn"] not in NO_MODEL
@@ -78,6 +86,10 @@ def cases(tier, rng):
         yield Case("note.copy_indep", [x, 4], "copy", model=False)
     for i in list(range(-30, 160)):
         yield Case("note.from_int", [i], "from_int")
+    # a setter that refuses its value: the note keeps the old one (and can still be copied)
+    for which, vals in (("velocity", (-1, 128, 200, 127, 0)), ("channel", (-1, 16, 99, 15, 0))):
+        for v in vals:
+            yield Case("note.refused_set", [which, v], "setter/" + which, model=False)
     for sp in (440, 415, 466):
         for nm, o, nm2, o2 in (("Cb", 0, "B", -1), ("Cbb", 0, "Bb", -1), ("C", 0, "B#", -1), ("Cb", 4, "B", 3), ("B#", 10, "C", 11),
                                ("G", 9, "F##", 9), ("A", 4, "G##", 4), ("Dbb", 0, "C", 0)):
@@ -170,6 +182,15 @@ def oracle(c, obs):
         if c["tag"] == "malformed":
             return None if isinstance(obs, Err) and obs.name in ("NoteFormatError", "ValueError", "IndexError") else "malformed name not rejected"
         return None
+    if fn == "note.refused_set":
+        which, v = a
+        ok = 0 <= v <= (127 if which == "velocity" else 15)
+        if isinstance(obs, Err):
+            return "raised"
+        want = [v if (ok and which == "velocity") else 70, v if (ok and which == "channel") else 3]
+        if obs[:2] != want:
+            return "after set_%s(%d) the note holds velocity/channel %s, expected %s (a refused value changes nothing)" % (which, v, obs[:2], want)
+        return None if obs[2] == ["C", 4, want[1], want[0]] else "the note cannot be copied any more after set_%s(%d): %s" % (which, v, obs[2])
     if fn == "note.from_shorthand":
         sh = a[0]
         if not any(ch in "abcdefgABCDEFG" for ch in sh):
